@@ -80,7 +80,27 @@ func v1Patch(n v1.JsonNode, d v1.Diff) (o v1Outcome) {
 	return v1Outcome{Node: res, Err: err}
 }
 
-var c17OptSets = []string{"list", "list", "set", "mset", "setkeys:id", "merge"}
+// v1SameMemberTwice reports whether two hunks of the diff go through the
+// same member object (an object element of the path).
+func v1SameMemberTwice(d v1.Diff) bool {
+	seen := map[string]int{}
+	for i, e := range d {
+		inThis := map[string]bool{}
+		for _, pe := range e.Path {
+			j := pe.Json()
+			if strings.HasPrefix(j, "{") && j != "{}" && !inThis[j] {
+				inThis[j] = true
+				if _, ok := seen[j]; ok {
+					return true
+				}
+				seen[j] = i
+			}
+		}
+	}
+	return false
+}
+
+var c17OptSets = []string{"list", "list", "set", "mset", "setkeys:id", "set+setkeys:id", "merge"}
 
 func checkC17(c PairCase, r *rec.Rec) error {
 	av, err := val.Parse(c.A)
@@ -97,13 +117,20 @@ func checkC17(c PairCase, r *rec.Rec) error {
 		return rec.Violated("v1 Diff panicked: %s", msg)
 	}
 	text := d.Render()
+	viol := rec.Violated
+	if jdx.SetKeysOf(c.Opts) != nil && jdx.Reading(c.Opts) == val.Set && v1SameMemberTwice(d) {
+		// Known finding D27: the v1 path of a keyed member hunk carries the
+		// whole member as its identity, so a second hunk for the same member
+		// does not find it any more.
+		viol = func(f string, a ...interface{}) error { return rec.Known("D27", f, a...) }
+	}
 	// in memory
 	out := v1Patch(v1Node(c.A), d)
 	if !out.OK() {
-		return rec.Violated("v1: Patch(a, a.Diff(b)) %s under %s\ndiff:\n%s", out.word(), c.Opts, text)
+		return viol("v1: Patch(a, a.Diff(b)) %s under %s\ndiff:\n%s", out.word(), c.Opts, text)
 	}
 	if !out.Node.Equals(v1Node(c.B), md...) {
-		return rec.Violated("v1: Patch(a, a.Diff(b)) = %s does not Equal b = %s under %s\ndiff:\n%s", out.Node.Json(), c.B, c.Opts, text)
+		return viol("v1: Patch(a, a.Diff(b)) = %s does not Equal b = %s under %s\ndiff:\n%s", out.Node.Json(), c.B, c.Opts, text)
 	}
 	// through the text
 	var d2 v1.Diff
@@ -119,10 +146,10 @@ func checkC17(c PairCase, r *rec.Rec) error {
 	}
 	out2 := v1Patch(v1Node(c.A), d2)
 	if !out2.OK() {
-		return rec.Violated("v1: the re-read diff %s on a under %s\ntext:\n%s", out2.word(), c.Opts, text)
+		return viol("v1: the re-read diff %s on a under %s\ntext:\n%s", out2.word(), c.Opts, text)
 	}
 	if !out2.Node.Equals(v1Node(c.B), md...) {
-		return rec.Violated("v1: the re-read diff turns a into %s, not into b = %s under %s\ntext:\n%s", out2.Node.Json(), c.B, c.Opts, text)
+		return viol("v1: the re-read diff turns a into %s, not into b = %s under %s\ntext:\n%s", out2.Node.Json(), c.B, c.Opts, text)
 	}
 	// coherence
 	equal := v1Node(c.A).Equals(v1Node(c.B), md...)
@@ -168,7 +195,7 @@ func genC17(t *rapid.T) PairCase {
 		return genEqPair(t, []string{"list"}, true)
 	}
 	if gen.Chance(t, "boundary", 20) {
-		pc := genEqPair(t, []string{"list", "set", "mset", "setkeys:id", "merge"}, false)
+		pc := genEqPair(t, []string{"list", "set", "mset", "setkeys:id", "set+setkeys:id", "merge"}, false)
 		return pc
 	}
 	return genPairCase(t, c17OptSets, func(p *gen.Profile) {
